@@ -111,7 +111,7 @@ def r2_errors_contained(repo=None):
             else:
                 r.violation(m.rel, q, norm(ast.unparse(c))[:80], "a file-system operation of the mirror step is outside the OSError "
                             "handler: a stale or duplicate event stops the mirror thread", line=c.lineno)
-    if n_mut < 5:
+    if n_mut < 3:
         raise AnalysisError("%s: %d file-system operations found, 5 confirmed" % (q, n_mut))
     meths = set(m.methods(HD))
     if meths & {"on_deleted", "on_moved"}:
